@@ -500,7 +500,8 @@ void f_replace_string (void) {
                     }
                   else
                     {
-                      memcpy (dst2, src, plen);
+                      /* in place: dst2 <= src, the ranges overlap once a replacement has shortened the text */
+                      memmove (dst2, src, plen);
                       dst2 += plen;
                       src += plen;
                     }
@@ -510,7 +511,7 @@ void f_replace_string (void) {
                   *dst2++ = *src++;
                 }
             }
-          memcpy (dst2, src, slimit - src);
+          memmove (dst2, src, slimit - src);
           dst2 += (slimit - src);
           *dst2 = 0;
           arg->u.string = extend_string (dst1, dst2 - dst1);
